@@ -36,7 +36,13 @@ fn parse_file(file: &mut SliceFile, ast: &mut Ast, diagnostics: &mut Diagnostics
 
     // Parse the preprocessed text.
     let parser = Parser::new(&file.relative_path, ast, diagnostics);
-    let Ok((attributes, module, definitions)) = parser.parse_slice_file(preprocessed_text) else { return };
+    let Ok((attributes, module, definitions)) = parser.parse_slice_file(preprocessed_text) else {
+        // Everything that was parsed before the error is in the AST already, but the definitions (and the module) that
+        // those elements belong to were never completed. Nothing may navigate from these elements to their parents,
+        // so the lints reported for this file must not be resolved against 'allow' attributes in their scope.
+        diagnostics.clear_scopes();
+        return;
+    };
 
     // Issue a syntax error if the user had definitions but forgot to declare a module.
     if !definitions.is_empty() && module.is_none() {
